@@ -60,10 +60,43 @@ class Check(PropertyCheck):
 
     def generate(self, rng, n, tier):
         for i in range(n):
-            if i % 3 == 2:
+            if i % 10 == 4:
+                yield self.pair_scenario(rng)
+            elif i % 3 == 2:
                 yield self.multi_scenario(rng)
             else:
                 yield self.single_scenario(rng)
+
+    def pair_scenario(self, rng):
+        """Two environments in one process with the SAME configuration on two different instances whose graphs have the same
+        numbers of nodes and edges (a J x M instance and its M x J transpose; or the same operations regrouped into other jobs):
+        each environment's spaces are its own."""
+        head, meta = env_head(rng)
+        feats = gen_feats(rng)
+        if rng.random() < 0.5:
+            J, M = rng.choice([(2, 3), (3, 2), (2, 4), (4, 2), (3, 4)])
+            a = [[([(p + j) % M], rng.randint(1, 5)) for p in range(M)] for j in range(J)]
+            b = [[([(p + j) % J], rng.randint(1, 5)) for p in range(J)] for j in range(M)]
+        else:
+            # 2 jobs of 3 operations vs 3 jobs of 4 + 1 + 1 operations on 4 machines: 6 operations, the same number of
+            # same-job pairs (3*2 + 3*2 = 4*3)
+            ops = [([rng.randrange(4)], rng.randint(1, 5)) for _ in range(6)]
+            ops[0], ops[1], ops[2], ops[3] = ([0], ops[0][1]), ([1], ops[1][1]), ([2], ops[2][1]), ([3], ops[3][1])
+            a = [ops[:3], ops[3:]]
+            b = [ops[:4], ops[4:5], ops[5:]]
+        if rng.random() < 0.5:
+            a, b = b, a
+        lines = ["new"]
+        steps = 0
+        for jobs in (a, b):
+            lines += [instance_line(jobs), gen.filter_line(None), "env " + " ; ".join([head] + feats), "eobs"]
+            for _ in range(rng.randint(1, gen.num_ops(jobs))):
+                lines.append(f"eauto {rng.randint(0, 50)}")
+                steps += 1
+            lines.append("ereset")
+        meta.update({"kind": "single", "family": "pair_same_size", "flexible": False, "steps": steps, "filter": "none",
+                     "n_feats": len(feats), "filter_style": "callable"})
+        return Scenario(lines, meta)
 
     def single_scenario(self, rng):
         family, jobs = gen.gen_instance(rng, None, max_jobs=4, max_machines=4, max_ops=3)
